@@ -191,6 +191,23 @@ CHECKS['C18'] = dict(
          'chained filesystems with subfolder prefix) and packlist.unify_path are bounded stand-ins.',
     note='trusted: abspath yields normalised absolute paths (so prefix containment means located inside), symlinks '
          'outside the property, POSIX semantics; unify_path bounded-only.')
+CHECKS['C20'] = dict(
+    category='other',
+    technique='contract-based deductive verification of the field codecs (pyvc lemmas: cmdseq pad_string/strip_cstring over '
+              'z3 strings, the quantisation statements of binary scenes located in the AST, real arithmetic) + AST '
+              'obligations on the writers; bounded generator-based write/read/write round trips of all six formats',
+    text='Proved on the real code: strip_cstring(pad_string(text, n)) == text for every NUL-free text that fits, the field '
+         'is exactly n long, longer texts are rejected, junk after the terminator is ignored; the quantisation statement '
+         'of Tag / AbsoluteTag / Curve.export_binary maps k / FACTOR back to k for every storable k (re-writing what was '
+         'read is byte-identical), always yields a storable value and is within half a step of the input. AST '
+         'obligations: constants of the lemmas, decoder divides by the same factor, AbsoluteTag range declared, the '
+         'relative-tag record layout agrees between writer and reader, scenes.image entries are sorted by checksum before '
+         'writing, quoted strings of the VCD text writer are escaped, soundscript ranges quoted, VMT written without '
+         'escapes, SMD link count separated, reproducible bone order, PCF attribute names keep their case. The whole-file '
+         'round trips (cmdseq, soundscript, VMT, SMD, PCF, scenes in text / binary / scenes.image v2+v3) are a bounded '
+         'stand-in over generated values - not counted as proved.',
+    note='trusted: bytes as latin-1 strings, struct, float arithmetic as real arithmetic in the quantisation lemmas. Two '
+         'known findings (soundscript names/waves needing escapes; flex animation tracks in text scenes).')
 CHECKS['C19'] = dict(
     category='other',
     technique='contract-based deductive verification of the lookup kernels (pyvc, z3/cvc5 strings with str.replace_all '
